@@ -795,6 +795,11 @@ class Typer:
                 if f.is_property:
                     return self.ann(f.node.returns, self.model.mods[k.rel], binds)
                 return ts(Bound(f, c))
+            if attr in k.attrs_val and isinstance(k.attrs_val[attr], ast.Tuple) and k.attrs_val[attr].elts and all(isinstance(x, ast.Tuple) for x in k.attrs_val[attr].elts):
+                # a class-level table of rows: the classes it holds are more exact than `Type[Base]`
+                tv = self._module_value_type(self.model.mods[k.rel], k.attrs_val[attr])
+                if tv:
+                    return tv
             if attr in k.attrs_ann:
                 return self.ann(k.attrs_ann[attr], self.model.mods[k.rel], binds)
             if attr in k.inst_attrs:
